@@ -23,7 +23,9 @@ func Ports(svc *v1.Service) []allocator.Port {
 // BackendKey extracts the backend key for a service.
 func BackendKey(svc *v1.Service) string {
 	if svc.Spec.ExternalTrafficPolicy == v1.ServiceExternalTrafficPolicyTypeLocal {
-		return labels.Set(svc.Spec.Selector).String()
+		// The prefix keeps the key of a Local service without pod selector
+		// apart from the (empty) key shared by all Cluster services.
+		return "local:" + labels.Set(svc.Spec.Selector).String()
 	}
 	// Cluster traffic policy can share services regardless of backends.
 	return ""
